@@ -243,21 +243,22 @@ def obs_brief(o):
     return "%s %s %r" % (o["status"], o["ctype"], o["text"][:300])
 
 
-def confirm_no_answer(ctx, srv, what, resend):
-    """The service did not answer `what`. Dead process => violation; alive => re-send once on a new connection."""
-    if not srv.alive():
-        code = srv.proc.poll() if srv.proc is not None else None
-        srv.stop()
-        return Fail("C18/service-died", "the service process died (exit %s) while answering: %s" % (code, what))
-    srv.http.close()
-    info = srv.http.request("GET", "/system/info", timeout=60)
-    again = resend(60)
-    if "noanswer" in again:
-        srv.restart()
-        return Fail("C18/no-answer", "the service (process alive, /system/info %s) did not answer, twice: %s -> %s" % (
-            "answers" if "status" in info else "does not answer either", what, again["noanswer"]))
+def confirm_no_answer(ctx, srv, what, why, replay):
+    """The service did not answer `what` (connection dropped, or no byte within the timeout). The service is restarted
+    and `replay(srv)` re-executes the same requests from an empty workspace; it returns the reason when the same request
+    is again left unanswered, else None.  Reproduced => violation; not reproduced => infrastructure, inconclusive."""
+    died = not srv.alive()
+    code = srv.proc.poll() if (died and srv.proc is not None) else None
     srv.restart()
-    raise Inconclusive("C18: a request got no answer once and an answer when re-sent (%s): unstable infrastructure" % what)
+    again = replay(srv)
+    died2 = not srv.alive()
+    if again is not None:
+        srv.restart()
+        if died or died2:
+            return Fail("C18/service-died", "the service process died (exit %s) on: %s (reproduced on a freshly started service)" % (code, what))
+        return Fail("C18/no-answer", "the service did not answer: %s\n  first run: %s\n  again on a freshly started service: %s" % (what, why, again))
+    raise Inconclusive("C18: a request got no answer once (%s: %s) and was answered when everything was replayed on a fresh service: "
+                       "unstable infrastructure" % (what, why))
 
 
 # ------------------------------------------------------------------------------------------------
@@ -506,7 +507,10 @@ def judge_echo(ctx, case, resp, part="echo"):
     what = "POST %s %r" % (path, case["body"][:200])
     rec = srv.http.request("POST", path, body=body, headers=headers)
     if "noanswer" in rec:
-        return confirm_no_answer(ctx, srv, what, lambda t: srv.http.request("POST", path, body=body, headers=headers, timeout=t))
+        def replay(s2):
+            ensure_echo(ctx, s2)
+            return s2.http.request("POST", path, body=body, headers=headers, timeout=60).get("noanswer")
+        return confirm_no_answer(ctx, srv, what, rec["noanswer"], replay)
     o = observe(rec)
     escapable = expected is not None and J.has_string_needing_escape(expected)
     labels = [part, "style=" + case["style"], "invocable=" + case["invocable"]]
@@ -639,7 +643,10 @@ def judge_tck(ctx, case, _resp):
     what = "POST /tck/evaluate %s" % body.decode("ascii")[:400]
     rec = srv.http.request("POST", "/tck/evaluate", body=body, headers=JSON_CT)
     if "noanswer" in rec:
-        return confirm_no_answer(ctx, srv, what, lambda t: srv.http.request("POST", "/tck/evaluate", body=body, headers=JSON_CT, timeout=t))
+        def replay(s2):
+            ensure_echo(ctx, s2)
+            return s2.http.request("POST", "/tck/evaluate", body=body, headers=JSON_CT, timeout=60).get("noanswer")
+        return confirm_no_answer(ctx, srv, what, rec["noanswer"], replay)
     o = observe(rec)
     sent = J.norm_sent(v)
     if case["invocable"] == "Wrap":
@@ -966,15 +973,21 @@ def describe(exp):
             "info": "data {name, version, copyright}", "fault": "an errors document"}[exp[0]] + ("" if len(exp) == 1 else " %r" % (exp[1:],))
 
 
-def run_history(ctx, srv, ops):
+def run_history(ctx, srv, ops, confirming=False):
     """sends clear + ops (+ suffix); returns the list of (op, observation) or a Fail for an unanswered request"""
     seq = [["clear"]] + ops + SUFFIX
     out = []
     srv.state = None
     for i, op in enumerate(seq):
-        rec = send_op(srv, op)
+        rec = send_op(srv, op, timeout=60 if confirming else None)
         if "noanswer" in rec and not (op[0] == "fault" and FAULTS[op[1]][4] == "errors-or-silence"):
-            f = confirm_no_answer(ctx, srv, "step %d %r of %r" % (i, op, seq[:i + 1]), lambda t: send_op(srv, op, timeout=t))
+            if confirming:
+                return None, (i, rec["noanswer"])
+
+            def replay(s2, at=i):
+                _, r = run_history(ctx, s2, ops, confirming=True)
+                return r[1] if (r is not None and r[0] == at) else None
+            f = confirm_no_answer(ctx, srv, "step %d %r of the history %r" % (i, op, seq[:i + 1]), rec["noanswer"], replay)
             return None, f
         o = observe(rec)
         if op[0] == "fault" and FAULTS[op[1]][4] == "errors-or-silence":
